@@ -2,6 +2,7 @@
 
 import io
 import math
+import zlib
 
 from hypothesis import strategies as st
 
@@ -144,10 +145,29 @@ def check_bytes(data, v, sd=None, creation=None):
                                    f'{nm2} (created #{o2}) at {p2}')
                             break
     # the library's own reader
-    for how in ('stream', 'new_from'):
+    for how in ('stream', 'new_from', 'file', 'file_keep_defs'):
         try:
             if how == 'stream':
                 descs = SynthDesc._read_stream(io.BytesIO(data))
+                if len(descs) != 1:
+                    v.fail('reader_count', len(descs))
+                    continue
+                desc = descs[0]
+            elif how.startswith('file'):
+                # a definition file (.scsyndef), the usual way descriptions
+                # are read; every fourth definition only (files are slow)
+                if zlib.crc32(data) % 4:
+                    continue
+                import os
+                import tempfile
+                fd, path = tempfile.mkstemp(suffix='.scsyndef')
+                try:
+                    with os.fdopen(fd, 'wb') as f:
+                        f.write(data)
+                    descs = SynthDesc.read(path,
+                                           keep_defs=how.endswith('defs'))
+                finally:
+                    os.unlink(path)
                 if len(descs) != 1:
                     v.fail('reader_count', len(descs))
                     continue
